@@ -201,15 +201,28 @@ def setup(sit, C=None):
 VALID_MODES = ("r", "r+", "a", "w", "w-", "x")
 
 
-def _writes_refused(r):
-    for f in (lambda: r.__setitem__("zz", 1), lambda: r.create_group("zg"), lambda: r.__delitem__("a"),
-              lambda: r.attrs.__setitem__("zk", 1), lambda: r.create_patch(), lambda: r.commit_patch(),
-              lambda: r.discard_patch()):
+def _writes_refused(r0):
+    # the record object itself and every record handle reachable from it through its nodes (`node.file`)
+    handles = [r0]
+    for p in ("/", "a", "b"):
         try:
-            f()
-            return False
+            n = r0[p]
         except (ValueError, KeyError):
-            pass
+            continue
+        handles.append(n.file)
+    for r in handles:
+        if r.mode != "r":
+            note(("handle of a read-only record reports mode", r.mode))
+            return False
+        for f in (lambda: r.__setitem__("zz", 1), lambda: r.create_group("zg"), lambda: r.__delitem__("a"),
+                  lambda: r.attrs.__setitem__("zk", 1), lambda: r.create_patch(), lambda: r.commit_patch(),
+                  lambda: r.discard_patch()):
+            try:
+                f()
+                note(("write accepted on a read-only record", "via node.file" if r is not r0 else "directly"))
+                return False
+            except (ValueError, KeyError):
+                pass
     return True
 
 
